@@ -2650,6 +2650,8 @@ def _seq_join(ex, s, parts):
                 z = Concat(z, s.z)
             z = Concat(z, p.z)
         return SeqV(z, s.kind)
+    if isinstance(parts, Obj) and '__join__' in parts.methods:
+        return parts.methods['__join__'](ex, parts, s)        # a modelled list of byte strings of symbolic length
     raise Unsupported('join of symbolic list')
 
 
